@@ -88,7 +88,14 @@ func c03Profiles(tier Tier) []*explore.Profile {
 		depth = 4
 	}
 	hist := &explore.Profile{
-		Name: "authority", EnvCfg: ledgerEnv(2), Seeds: seedsOf("mixed", "handover"), Depth: depth, Deadline: tierDeadline(tier), Oracles: orc,
+		Name: "authority", EnvCfg: ledgerEnv(2), Depth: depth, Deadline: tierDeadline(tier), Oracles: orc,
+		Seeds: func(env *world.Env) []explore.SeedState {
+			out := seedsOf("mixed", "handover")(env)
+			// a second collection whose create-role holder has never created anything
+			b := &uni.Builder{Env: env, W: uni.Seed(env, "mixed")}
+			b.Must(uni.SetRole(uni.B0, uni.R, uni.NFTRoles...))
+			return append(out, explore.SeedState{Name: "mixed+R-never-created", W: b.W})
+		},
 		Menu: func(w *world.World) []world.Action {
 			acts := undisciplinedRoleMenu(w, o)
 			for _, a := range users(o) {
@@ -96,7 +103,8 @@ func c03Profiles(tier Tier) []*explore.Profile {
 			}
 			acts = append(acts, impostorMenu(w, o)...)
 			acts = append(acts, accountMenu(w, o)...)
-			acts = append(acts, handoverMenu(w, o, [][]byte{uni.S})...)
+			acts = append(acts, handoverMenu(w, o, [][]byte{uni.S, uni.R})...)
+			acts = append(acts, uni.Create(uni.B0, uni.R, 1), uni.Create(uni.C1, uni.R, 1), uni.Create(uni.A0, uni.R, 1))
 			acts = append(acts, freezeMenu(w, o, true)...)
 			acts = append(acts, deliveries(w)...)
 			return acts
